@@ -4,7 +4,7 @@ from __future__ import annotations
 import itertools
 
 import lang
-from chartgen import keyword_like_words, outcome, section, wide_chars
+from chartgen import ESCAPE_LIKE, keyword_like_words, outcome, section, wide_chars
 from common import cps, rng
 from extract_lang import FIELDS
 
@@ -163,6 +163,9 @@ def run(ctx):
                 f"Difficulty = {n}", f'{PASCAL[sf[2]]} = "{n}"', f"PreviewStart = {n}"]
         r.shuffle(body)
         bodies.append(body)
+    for fr in ESCAPE_LIKE:
+        f1, f2 = r.sample(STR_FIELDS, 2)
+        bodies.append(["Resolution = 192", f'{PASCAL[f1]} = "5{fr} floppy"', f'{PASCAL[f2]} = "C:{fr}songs{fr}live{fr}"'])
     for w in keyword_like_words()[:: ctx.pick(3, 1)]:
         f1 = r.choice(STR_FIELDS)
         bodies.append(["Resolution = 192", f'{PASCAL[f1]} = "{w}"'])
